@@ -3,6 +3,7 @@ the property oracle evaluated on the implementation, interface comparison with F
 optimizer run on a WeightedFunction versus the equivalent plain Function.
 
 stdin payload: none -> generate cases; {"cases": [...]} -> re-run exactly these cases (replay)."""
+import copy
 import inspect
 import numpy as np
 from harness import hlib
@@ -11,6 +12,7 @@ from opytimizer.core.function import Function
 from opytimizer.functions.weighted import WeightedFunction
 
 LARGE = [2 ** 20, -(2 ** 20), 2 ** 24 - 1, -(2 ** 24 - 1)]
+XKINDS = ['float64', 'float64', 'int64', 'float64', 'float32', 'float64', 'list']
 
 
 def make_comp(idx, sq, a, b, log, ref):
@@ -18,7 +20,7 @@ def make_comp(idx, sq, a, b, log, ref):
 
     def comp(arr):
         seen = np.array(arr, dtype=float).ravel()
-        log.append([idx, bool(arr is ref['x']), [float(v) for v in seen]])
+        log.append([idx, bool(arr is ref['x']), [float(v) for v in seen], describe(arr)])
         flat = seen * seen if sq else seen
         return float(b + np.dot(a_arr, flat[:len(a_arr)])) if len(a_arr) else float(b)
     comp.__name__ = 'comp%d' % idx
@@ -34,6 +36,23 @@ def make_comp(idx, sq, a, b, log, ref):
                 return comp(arr)
         return Holder().method
     return comp
+
+
+def describe(o):
+    """what kind of object a component is handed: type, and dtype for arrays"""
+    return 'ndarray:%s' % o.dtype if isinstance(o, np.ndarray) else type(o).__name__
+
+
+def make_x(c):
+    """the argument, of the recorded kind: float64 (positions), int64 / float32 arrays, or a nested Python list"""
+    kind = c.get('xkind', 'float64')
+    if kind == 'list':
+        return np.array(c['x'], dtype=int).reshape(c['shape']).tolist()
+    return np.array(c['x'], dtype={'float64': float, 'int64': np.int64, 'float32': np.float32}[kind]).reshape(c['shape'])
+
+
+def snapshot(x):
+    return (x.tobytes(), str(x.dtype)) if isinstance(x, np.ndarray) else copy.deepcopy(x)
 
 
 def exact_comp(sq, a, b, x):
@@ -63,7 +82,7 @@ def run_case(c):
             out['oracle'] = 'constructor rejects %d single-argument functions with %d weights: %r' % (len(comps), len(ws), ex)
             out['okey'] = 'construct'
         return out
-    x = np.array(c['x'], dtype=float).reshape(c['shape'])
+    x = make_x(c)
     ref['x'] = x
     return evaluate(wf, c, x, log, out)
 
@@ -73,7 +92,7 @@ def evaluate(wf, c, x, log, out):
     del log[:]
     k = len(c['comps'])
     nw = len(c['ws'])
-    snap = x.tobytes()
+    snap = snapshot(x)
     try:
         val = wf.pointer(x)
     except Exception as ex:  # noqa: BLE001
@@ -82,7 +101,7 @@ def evaluate(wf, c, x, log, out):
             out['oracle'] = 'pointer(x) raised ' + out['raised']
             out['okey'] = 'value'
         return out
-    mutated = x.tobytes() != snap
+    mutated = snapshot(x) != snap
     out['log'] = [list(e) for e in log]
     out['mutated'] = mutated
     try:
@@ -103,6 +122,10 @@ def evaluate(wf, c, x, log, out):
         elif any(e[2] != orig for e in log):
             bad = [e for e in log if e[2] != orig][0]
             out['oracle'] = 'component %d was evaluated on %s, not on the argument %s' % (bad[0], bad[2], orig)
+            out['okey'] = 'argument'
+        elif any(e[3] != describe(x) for e in log):
+            bad = [e for e in log if e[3] != describe(x)][0]
+            out['oracle'] = 'component %d was handed a %s, not the unmodified argument (a %s)' % (bad[0], bad[3], describe(x))
             out['okey'] = 'argument'
         elif mutated:
             out['oracle'] = 'the argument was modified by the call'
@@ -169,6 +192,146 @@ def run_seq(c):
         o['step'] = st['op']
         obs.append(o)
     return obs
+
+
+# ------------------------------------------------------------------ histories: mistake then fix; one list, several weight vectors
+
+def offer_invalid(kind):
+    """hand an invalid component to Function / WeightedFunction inside try/except and drop it: a two-argument
+    function or lambda, or a non-callable.  -> how it was answered (C16 does not judge that: C14 does)"""
+    if kind.startswith('def2'):
+        def bad(a, b):
+            return 0.0
+    elif kind.startswith('lambda2'):
+        bad = lambda a, b: 0.0  # noqa: E731
+    elif kind.startswith('closure2'):
+        rho = 2.5
+
+        def bad(a, b):
+            return rho * b
+    else:
+        bad = {'int': 3, 'none': None, 'str': 'sphere'}[kind.split(':')[0]]
+    try:
+        if kind.endswith(':weighted'):
+            WeightedFunction(functions=[bad], weights=[1.0])
+        else:
+            Function(pointer=bad)
+        return 'accepted', id(bad)
+    except Exception as ex:  # noqa: BLE001
+        return hlib.exc_kind(ex), id(bad)
+
+
+BAD_KINDS = ['def2:function', 'lambda2:weighted', 'closure2:weighted', 'int:function', 'def2:weighted', 'none:weighted',
+             'lambda2:function', 'str:function', 'closure2:function']
+
+
+def run_history(h):
+    """cycles of: offer an invalid component (rejected, dropped) -> build freshly created valid single-argument
+    functions -> they must be accepted by Function and by WeightedFunction and give the exact weighted sum,
+    whatever was rejected before.  -> one observation per cycle"""
+    import gc
+    obs = []
+    rejected_ids = set()
+
+    def make_fresh(j):
+        if j % 2:
+            return (lambda c: (lambda a: float(c + np.sum(a))))(j)
+        off = float(j)
+
+        def fresh(a):
+            return off + float(np.sum(a))
+        return fresh
+    for cyc in h['cycles']:
+        answered, bad_id = offer_invalid(cyc['bad'])
+        if answered != 'accepted':
+            rejected_ids.add(bad_id)
+        gc.collect()
+        o = None
+        # freshly created valid functions, kept alive together, until one of them sits at the address of a rejected
+        # and dropped object (CPython re-uses addresses): each must be accepted and evaluate correctly
+        pool, reused = [], False
+        for j in range(64):
+            pool.append(make_fresh(j))
+            if id(pool[-1]) in rejected_ids:
+                reused = True
+                break
+        xv = np.array([[1.0], [2.0]])
+        for j, f in enumerate(pool):
+            try:
+                Function(pointer=f)
+                v = WeightedFunction(functions=[f], weights=[2]).pointer(xv) if j >= len(pool) - 2 else None
+                if v is not None and v != 2 * (j + 3.0):
+                    raise ValueError('WeightedFunction([f], [2]).pointer = %r, expected %r' % (v, 2 * (j + 3.0)))
+            except Exception as ex:  # noqa: BLE001
+                o = dict(cyc['case'], val=None, log=[], rejected=hlib.exc_kind(ex), raised=None, okey='mistake-then-fix',
+                         oracle='after a rejected and dropped %s, freshly created single-argument function no. %d is refused: %r'
+                         % (cyc['bad'].split(':')[0], j + 1, ex))
+                break
+        del pool
+        if o is None:
+            o = run_case(cyc['case'])
+            if o['oracle']:
+                o['oracle'] = 'after a rejected %s: %s' % (cyc['bad'].split(':')[0], o['oracle'])
+                o['okey'] = 'mistake-then-fix'
+        o['invalid_answered'] = answered
+        o['address_reused'] = reused
+        obs.append(o)
+    return obs
+
+
+def run_sweep(c):
+    """the same caller-owned list of functions handed to WeightedFunction once per weight vector: every construction
+    must succeed, the caller's list must still hold its functions, every value is the exact sum"""
+    log, ref = [], {}
+    comps = [make_comp(i, bool(sq), a, b, log, ref) for i, (sq, a, b) in enumerate(c['comps'])]
+    originals = list(comps)
+    x = make_x(c)
+    ref['x'] = x
+    obs = []
+    for j, (ws, wt) in enumerate(zip(c['ws_list'], c['wtypes_list'])):
+        cur = dict(c, ws=list(ws), wtypes=list(wt))
+        out = dict(cur, val=None, log=[], oracle=None, okey=None, rejected=None, raised=None, step='weights %d' % j)
+        try:
+            wf = WeightedFunction(functions=comps, weights=[wrap_weight(w, t) for w, t in zip(ws, wt)])
+        except Exception as ex:  # noqa: BLE001
+            out.update({'rejected': hlib.exc_kind(ex), 'okey': 'same-list-reuse',
+                        'oracle': 'construction %d from the same list of %d single-argument functions (weights %s) raised %r'
+                        % (j + 1, len(comps), ws, ex)})
+            obs.append(out)
+            continue
+        out = evaluate(wf, cur, x, log, out)
+        if out['oracle']:
+            out['oracle'] = 'construction %d from the same list: %s' % (j + 1, out['oracle'])
+            out['okey'] = 'same-list-reuse'
+        elif len(comps) != len(originals) or any(a is not b for a, b in zip(comps, originals)):
+            out['oracle'] = 'the caller\'s list of functions was modified by the constructor: %s' % [type(f).__name__ for f in comps]
+            out['okey'] = 'same-list-reuse'
+        obs.append(out)
+    return obs
+
+
+def gen_histories():
+    r = hlib.rng('c16hist')
+    hs = []
+
+    def case(k):
+        nv, nd = r.randint(1, 3), r.randint(1, 2)
+        nx = nv * nd
+        return {'comps': [[r.random() < 0.3, [r.randint(-50, 50) for _ in range(nx)], r.randint(-1000, 1000)] for _ in range(k)],
+                'ws': [r.choice([1, -1, 2 ** 20, 7]) if r.random() < 0.4 else r.randint(-5000, 5000) for _ in range(k)],
+                'wtypes': [r.choice(['int', 'float', 'np']) for _ in range(k)],
+                'x': [r.randint(-60, 60) for _ in range(nx)], 'shape': [nv, nd], 'xkind': 'float64'}
+    for _ in range(1 if hlib.QUICK else 8):
+        hs.append({'cycles': [{'bad': BAD_KINDS[(j + len(hs)) % len(BAD_KINDS)], 'case': case(r.randint(1, 3))} for j in range(25)]})
+    sweeps = []
+    for _ in range(6 if hlib.QUICK else 60):
+        c = case(r.randint(1, 4))
+        k = len(c['comps'])
+        m = r.randint(2, 4)
+        c['ws_list'] = [[r.choice([0, 1, -2, 2 ** 20]) if r.random() < 0.4 else r.randint(-5000, 5000) for _ in range(k)] for _ in range(m)]
+        c['wtypes_list'] = [[r.choice(['int', 'float', 'np']) for _ in range(k)] for _ in range(m)]
+        sweeps.append(c)
+    return hs, sweeps
 
 
 def gen_seqs():
@@ -239,7 +402,7 @@ def gen_cases():
                           else r.randint(-5000, 5000))
         wtypes = [r.choice(['int', 'float', 'float', 'np']) for _ in range(nw)]
         return {'comps': comps, 'ws': ws, 'wtypes': wtypes, 'x': x, 'shape': [nv, nd], 'wclass': wclass,
-                'tag': 'eq' if k == nw else 'trunc'}
+                'tag': 'eq' if k == nw else 'trunc', 'xkind': XKINDS[len(cases) % len(XKINDS)]}
 
     # systematic: every k in 1..8 x every weight class (the last component gets a weight that matters)
     for k in range(1, 9):
@@ -358,7 +521,9 @@ def optimizer_runs():
 def main():
     p = hlib.payload()
     if p and 'cases' in p:
-        res = {'cases': [run_case(c) for c in p['cases']], 'seqs': [run_seq(c) for c in p.get('seqs', [])]}
+        res = {'cases': [run_case(c) for c in p['cases']], 'seqs': [run_seq(c) for c in p.get('seqs', [])],
+               'histories': [run_history(h) for h in p.get('histories', [])],
+               'sweeps': [run_sweep(c) for c in p.get('sweeps', [])]}
         if p.get('interface'):
             res['interface'] = interface_check()
         if p.get('optimizers'):
@@ -366,7 +531,11 @@ def main():
         hlib.emit(res)
         return
     seqs = gen_seqs()
-    hlib.emit({'cases': [run_case(c) for c in gen_cases()], 'seq_inputs': seqs, 'seqs': [run_seq(c) for c in seqs],
+    hs, sweeps = gen_histories()
+    # the histories run first: nothing else has been offered to Function in this process yet
+    hist_obs = [run_history(h) for h in hs]
+    hlib.emit({'history_inputs': hs, 'histories': hist_obs, 'sweep_inputs': sweeps, 'sweeps': [run_sweep(c) for c in sweeps],
+               'cases': [run_case(c) for c in gen_cases()], 'seq_inputs': seqs, 'seqs': [run_seq(c) for c in seqs],
                'interface': interface_check(), 'optimizers': optimizer_runs()})
 
 
